@@ -67,10 +67,10 @@ def plumbing(ctx):
     ok = len(calls) == 1
     if ok:
         a = calls[0]["args"]
-        m = peel(a[1])
+        m = peel(psanorm.resolve(a[1]))
         cache = field_path(a[2])
-        roots = peel(a[3])
-        tr = peel(a[4])
+        roots = peel(psanorm.resolve(a[3]))
+        tr = peel(psanorm.resolve(a[4]))
         root_locals = [x for x in walk(roots) if x.get("k") == "local"]
         ok = m.get("k") == "def" and m.get("path") == MODE + "FixedPoint" and cache is not None and cache[0] == "self" and cache[2] == ["cache"] \
             and len(root_locals) == 1 and root_locals[0]["id"] == P.get("e") and tr.get("k") == "def" and tr.get("path") == SIMPLIFY
@@ -79,6 +79,7 @@ def plumbing(ctx):
     rets = [n["e"] for n in ix.nodes if n.get("k") == "return" and "e" in n] + [stmts_of(f["body"])[-1]]
     for i, r in enumerate(rets):
         b, ms = chain(r)
+        b = peel(psanorm.resolve(b))       # `let simplified = get_fixed_point(..); simplified.unwrap()`
         okr = b.get("k") == "call" and callee(b) == GET_FIXED_POINT and field_path(b["args"][0]) and field_path(b["args"][0])[2] == ["cache"] and is_local(b["args"][1], P.get("e")) \
             and [m[0] for m in ms] in (["unwrap"], ["expect"]) and (not calls or ix.precedes(calls[0], b))
         ctx.inst("R13.2", "Simplifier::simplify:result#%d" % (i + 1), okr, r.get("sp"),
